@@ -21,3 +21,5 @@ open RV.C19
 #print axioms disjoint_second_keeps_list_partial
 #print axioms disjoint_second_keeps_list_witness
 #print axioms extend_view_refines
+#print axioms n3_real_terms
+#print axioms disjoint_second_reads_partial
